@@ -229,9 +229,15 @@ def run_shard(spec, seed, count, tag):
     def limits():
         # a runaway real-code loop must not take the machine down: 10 GiB address space per probe
         resource.setrlimit(resource.RLIMIT_AS, (10 << 30, 10 << 30))
+    # scratch files of the probe (hibernation files, temporary repositories) live under the shard's own directory and
+    # go away with it - also when the probe dies or is killed
+    ptmp = os.path.join(d, 'tmp')
+    shutil.rmtree(ptmp, ignore_errors=True)
+    os.makedirs(ptmp, exist_ok=True)
+    penv = dict(GOENV, TMPDIR=ptmp)
     try:
         r = subprocess.run([exe, str(seed), str(count), ops, impl] + [str(x) for x in spec.get('extra', [])],
-                           cwd=d, env=GOENV, stdout=subprocess.PIPE, stderr=subprocess.PIPE,
+                           cwd=d, env=penv, stdout=subprocess.PIPE, stderr=subprocess.PIPE,
                            timeout=spec.get('timeout', PROBE_TIMEOUT[0]), preexec_fn=limits)
         res['probe_rc'] = r.returncode
         if r.returncode != 0:
@@ -255,7 +261,7 @@ def run_shard(spec, seed, count, tag):
                 raise TimeoutError()
             try:
                 r2 = subprocess.run([exe, str(seed), str(k), ops + '.bisect', impl + '.bisect'] +
-                                    [str(x) for x in spec.get('extra', [])], cwd=d, env=GOENV, stdout=subprocess.DEVNULL,
+                                    [str(x) for x in spec.get('extra', [])], cwd=d, env=penv, stdout=subprocess.DEVNULL,
                                     stderr=subprocess.DEVNULL, timeout=one_run, preexec_fn=limits)
                 return r2.returncode != 0
             except subprocess.TimeoutExpired:
@@ -275,6 +281,7 @@ def run_shard(spec, seed, count, tag):
         for x in (ops + '.bisect', impl + '.bisect', impl + '.bisect.oracle', impl + '.bisect.stats'):
             if os.path.exists(x):
                 os.remove(x)
+    shutil.rmtree(ptmp, ignore_errors=True)
     if spec.get('fam') is not None and os.path.exists(ops):
         t0 = time.time()
         with open(ops, 'rb') as fin, open(model, 'wb') as fout:
